@@ -169,6 +169,10 @@ def cfg_dt(cfg):
     return cfg.get("dt", 2.0 * cfg.get("h", 1.0))
 
 
+T0_AT_CONSTRUCTION = 2.625
+CONSTRUCTION_ISSUES: list = []
+
+
 def get_sim(cfg, real_t):
     import sopht.simulator as sps
 
@@ -178,11 +182,12 @@ def get_sim(cfg, real_t):
     if key not in _SIMS:
         shape = tuple(cfg["shape"])
         xr = float(shape[-1]) * cfg.get("h", 1.0)
+        t0 = T0_AT_CONSTRUCTION
         if cfg["sim"] == "ns2":
             s = sps.UnboundedNavierStokesFlowSimulator2D(
                 grid_size=shape, x_range=xr, kinematic_viscosity=cfg_nu(cfg), real_t=real_t, with_forcing=cfg.get("forcing", False),
                 with_free_stream_flow=cfg.get("free_stream", False), flow_density=cfg.get("rho", 1.0), penalty_zone_width=cfg.get("w", 2),
-                num_threads=cfg.get("threads", 1))
+                num_threads=cfg.get("threads", 1), time=t0)
         elif cfg["sim"] == "ns3":
             kw = {}
             if cfg.get("filter", "off") != "off":
@@ -190,11 +195,14 @@ def get_sim(cfg, real_t):
             s = sps.UnboundedNavierStokesFlowSimulator3D(
                 grid_size=shape, x_range=xr, kinematic_viscosity=cfg_nu(cfg), real_t=real_t, with_forcing=cfg.get("forcing", False),
                 with_free_stream_flow=cfg.get("free_stream", False), flow_density=cfg.get("rho", 1.0), penalty_zone_width=cfg.get("w", 2),
-                poisson_solver_type=cfg.get("solver", "greens_function_convolution"), num_threads=cfg.get("threads", 1), **kw)
+                poisson_solver_type=cfg.get("solver", "greens_function_convolution"), num_threads=cfg.get("threads", 1), time=t0, **kw)
         else:
             s = sps.PassiveTransportFlowSimulator(
                 kinematic_viscosity=cfg_nu(cfg), grid_dim=len(shape), grid_size=shape, x_range=xr, real_t=real_t,
-                field_type="scalar" if cfg["sim"] == "pt_scalar" else "vector", num_threads=cfg.get("threads", 1))
+                field_type="scalar" if cfg["sim"] == "pt_scalar" else "vector", num_threads=cfg.get("threads", 1), time=t0)
+        # the clock starts at the `time` argument (restarts construct simulators at the checkpoint's time)
+        if float(s.time) != t0:
+            CONSTRUCTION_ISSUES.append(f"{type(s).__name__}(time={t0}) starts with time = {s.time!r}")
         _SIMS[key] = s
     return _SIMS[key]
 
@@ -240,13 +248,26 @@ def run_step(sim, cfg, U):
         sim.time_step(dt=float(Dt))
 
 
+FREE_STREAMS = [[1.5, -0.5, 0.25], [0.0, 0.0, 0.75], [2.0, 0.0, 0.0], [0.0, -1.25, 0.0], [1.5, -0.5, 0.25], [0.0, 0.5, 0.25]]
+_UCOUNT: dict = {}
+
+
+def next_free_stream(cfg):
+    """cycles through FREE_STREAMS per configuration (so every free-stream configuration meets every alignment early)."""
+    key = (cfg["sim"], tuple(cfg["shape"]), cfg.get("forcing", False))
+    i = _UCOUNT.get(key, 0)
+    _UCOUNT[key] = i + 1
+    return FREE_STREAMS[i % len(FREE_STREAMS)][: len(cfg["shape"])]
+
+
 def replay_step(chk, cfg, e, real_t, rng):
     """-> list of error texts."""
     shim.set_backend("compile")
     sim = get_sim(cfg, real_t)
     D = len(cfg["shape"])
     h = cfg.get("h", 1.0)
-    U = [1.5, -0.5, 0.25][:D]
+    # free stream: generic, and aligned with each single axis (zero components are inputs too)
+    U = next_free_stream(cfg)
     primary = load_state(sim, cfg, e, real_t)
     poison_scratch(sim, rng)
     vel0 = sim.velocity_field.copy()
@@ -276,7 +297,7 @@ def replay_step(chk, cfg, e, real_t, rng):
         umag = max(1.0, np.abs(want_u).max())
         if not du <= 50 * eps * umag:
             c = np.unravel_index(np.argmax(np.abs(sim.velocity_field.astype(float) - want_u)), want_u.shape)
-            errs.append(f"velocity differs from curl(solve(omega)) + free stream by {du:.3g} at {c} (code {sim.velocity_field[c]}, reference {want_u[c]})")
+            errs.append(f"velocity differs from curl(solve(omega)) + free stream {U} by {du:.3g} at {c} (code {sim.velocity_field[c]}, reference {want_u[c]})")
     else:
         if not np.array_equal(sim.velocity_field, vel0):
             errs.append("passive transport modified the velocity field")
